@@ -421,14 +421,18 @@ func spec_bd(s string, from int, to int) int { panic("spec") }
 //@ loop 0: decreases (len(l.input) - l.end, ite(r == eof, 0, 1))
 //@ loop 0: invariant sent >= old(sent) && allTOKS(l, old(sent))
 
+// maximal munch: a name ends only where the next rune cannot continue it (letter, digit or '_' in the sense of package
+// unicode) - a name is never split in two (C11, C12, C01: the grammar that is read is the grammar that was written)
 //@ func IdentifyState
-//@ props C13
+//@ props C13 C01 C11 C12
 //@ results next
+//@ before_stmt [C01,C11,C12] "l.emit(Identifier)" l.end >= len(l.input) || !(unicode.IsLetter(rune_at(l.input[l.end:], 0)) || unicode.IsDigit(rune_at(l.input[l.end:], 0)) || rune_at(l.input[l.end:], 0) == 95)
 //@ modifies l.start, l.startLoc, l.end, l.width, l.prev, l.loc, sent
 //@ requires wfL(l)
 //@ ensures [C13] stepOK(l, IdentifyState, next, old(l.end))
 //@ ensures [C13] sent >= old(sent) && allTOKS(l, old(sent))
 //@ loop 0: invariant wfL(l) && (r == eof || r >= 0) && l.start <= l.end - l.width && l.end - l.width >= old(l.end)
+//@ loop 0: invariant [C01,C11,C12] (r != eof ==> l.width >= 1 && r == rune_at(l.input[l.end-l.width:], 0)) && (r == eof ==> l.width == 0 && l.end >= len(l.input))
 //@ loop 0: decreases (len(l.input) - l.end, ite(r == eof, 0, 1))
 //@ loop 0: invariant sent >= old(sent) && allTOKS(l, old(sent))
 
